@@ -3,6 +3,7 @@ import lists
 import panics
 import bitio
 import dispatch
+import engine
 
 META = {
     "level": "other",
@@ -27,5 +28,5 @@ def run(ctx, res):
     lists.rule_fit(prog, res, mods)
     cl = panics.closure(prog, panics.DEC_ROOTS)
     lists.rule_error_propagation(prog, res, cl)
-    dispatch.decode_table(prog, res, rule="E-map")
+    dispatch.decode_table(prog, engine.Filtered(res, {"E-map"}, ("return-shape", "corrupt-arm", "typed-arm", "arm-complete", "default-arm", "empty-arm")), rule="E-map")
     bitio.rule_guard_cursor(prog, res, bitio.PARSE, 2)
